@@ -1,6 +1,6 @@
 #!/bin/sh
 # usage: tools/tryseed.sh <patch.diff> <Cxx> [more Cxx...]   — apply a seeded change to /repo, run quick checks, undo.
-P="$1"; shift
+P="$(realpath "$1")"; shift
 cd /verif
 git -C /repo apply "$P" || { echo "patch does not apply"; exit 3; }
 for c in "$@"; do
